@@ -4,6 +4,7 @@ import math
 import numpy as np
 from hypothesis import strategies as st
 
+from pbt.props.c03 import _spell
 from pbt.samples import call, raised, build, sample_spec
 
 ID = 'C05'
@@ -70,7 +71,7 @@ def _sample_case(draw):
     nb = st.one_of(st.none(), st.integers(2, 20))
     form = draw(st.sampled_from(['none', 'count', 'pair']))
     bins = None if form == 'none' else (draw(st.integers(2, 20)) if form == 'count' else [draw(nb), draw(nb)])
-    return dict(arm='sample', spec=spec, sel=sel, spell=[draw(st.booleans()), draw(st.booleans())],
+    return dict(arm='sample', spec=spec, sel=sel, spell=[draw(st.sampled_from(['name', 'pos', 'neg'])) for _ in range(2)],
                 bins=bins, xscale=draw(st.sampled_from(['linear', 'log', 'logicle'])),
                 yscale=draw(st.sampled_from(['linear', 'log', 'logicle'])), to_rfi=draw(st.booleans()))
 
@@ -156,7 +157,7 @@ def check(case, obs):
             d = FlowCal.transform.to_rfi(d)
         data = d
         names = list(d.channels)
-        ch = [names[j] if sp else j for j, sp in zip(case['sel'], case['spell'])]
+        ch = [_spell(j, sp, names, False) for j, sp in zip(case['sel'], case['spell'])]
         bins = case['bins']
         kw = dict(xscale=case['xscale'], yscale=case['yscale'])
         mk = lambda: _fresh(bins)
@@ -189,6 +190,7 @@ def check(case, obs):
     xe, ye = (np.asarray(e, dtype=float) for e in out.bin_edges)
     mask = np.asarray(out.mask)
     bm = np.asarray(out.bin_mask)
+    first = (np.array(out.bin_edges[0], dtype=float), np.array(out.bin_edges[1], dtype=float), mask.copy(), bm.copy())
     if not obs.claim('shapes', mask.dtype == bool and mask.shape == (n_all,) and bm.dtype == bool
                      and bm.shape == (len(xe) - 1, len(ye) - 1) and len(xe) >= 2 and len(ye) >= 2,
                      lambda: 'mask %r bin_mask %r edges %d x %d' % (mask.shape, bm.shape, len(xe), len(ye))):
@@ -285,3 +287,8 @@ def check(case, obs):
     obs.claim('replay', not raised(out3) and np.array_equal(np.asarray(out3.mask), mask)
               and np.array_equal(np.asarray(out3.bin_mask), bm),
               lambda: 're-gating with the returned bin edges and bin mask gives another result (%r)' % (out3 if raised(out3) else ''))
+    # what the first call returned is still what it returned (later calls share nothing with it)
+    obs.claim('stable', np.array_equal(first[0], np.asarray(out.bin_edges[0], dtype=float))
+              and np.array_equal(first[1], np.asarray(out.bin_edges[1], dtype=float))
+              and np.array_equal(first[2], np.asarray(out.mask)) and np.array_equal(first[3], np.asarray(out.bin_mask)),
+              'the result of the first gate call changed after later gate calls')
